@@ -156,6 +156,8 @@ def nodeCall (toks : List String) : Option (NetM String) :=
       return "ok")
   | ["set", "tx_timeout", v] => do let v ← parseNat v; some (do modNode fun n => { n with txTimeout := v }; return "ok")
   | ["set", "route_timeout", v] => do let v ← parseNat v; some (do modNode fun n => { n with routeTimeout := v }; return "ok")
+  | ["set", "max_message_length", v] => do
+    let v ← parseNat v; some (do modNode fun n => { n with maxMessageLength := v }; return "ok")
   | ["set", "ret_sys_msg", v] => do let v ← pBool v; some (do modNode fun n => { n with retSysMsg := v }; return "ok")
   | ["set", "allow_children", v] => do let v ← pBool v; some (do modNode fun n => { n with parenthood := v }; return "ok")
   | ["set", "address_suffix", v] => do
